@@ -614,8 +614,12 @@ func typeKey(t types.Type) string {
 }
 
 func verifyEffectLoop(p *Prog, fi *FuncInfo, rs *ast.RangeStmt) string {
+	return verifyEffectBody(p, fi, rs.Body, 0)
+}
+
+func verifyEffectBody(p *Prog, fi *FuncInfo, body ast.Node, depth int) string {
 	bad := ""
-	ast.Inspect(rs.Body, func(n ast.Node) bool {
+	ast.Inspect(body, func(n ast.Node) bool {
 		call, ok := n.(*ast.CallExpr)
 		if !ok {
 			return true
@@ -623,6 +627,14 @@ func verifyEffectLoop(p *Prog, fi *FuncInfo, rs *ast.RangeStmt) string {
 		obj := calleeObj(fi.Pkg.TypesInfo, call)
 		if isFunc(obj, "os", "", "MkdirAll") || isFunc(obj, "os", "", "WriteFile") || isFunc(obj, "path/filepath", "", "Dir") {
 			return true
+		}
+		// a private helper of the audited function whose body satisfies the same audit
+		if f, ok := obj.(*types.Func); ok && depth < 2 && !f.Exported() && p.IsOwn(f.Pkg()) {
+			if h := p.Func(funcKey(f)); h != nil && h.Decl.Body != nil && p.inRegion(fi.Name(), h) {
+				if msg := verifyEffectBody(p, h, h.Decl.Body, depth+1); msg == "" {
+					return true
+				}
+			}
 		}
 		bad = fmt.Sprintf("%s: unexpected call %s", p.PosStr(call.Pos()), exprString(call.Fun))
 		return false
